@@ -30,7 +30,7 @@ class C16(Monitor):
     def on_step(self, w, s):
         if s.kind != 'recv' or s.snap['closed'] or s.quirk or not s.units:
             return
-        single = len(s.units) == 1 and not (not s.ok and s.trailing >= 9)
+        single = s.exact
         if not single and not s.ok:
             return      # burst that raised: culprit unknown, connection dead anyway
         for i, f in enumerate(s.units):
